@@ -94,6 +94,10 @@ def _collision_scenes(seed):
     s['custom'] = dict(elasticity=float(rng.choice([0.0, 0.5])))
     s['collision'] = True
     out.append(s)
+    s2 = dict(s)
+    s2['custom'] = dict(s['custom'], spring_mass_scale=0.5,
+                        spring_inertia_scale=0.5)
+    out.append(s2)
   return out
 
 
@@ -109,7 +113,7 @@ def tasks(tier, seed):
       ts.append(dict(name='collision %s %d' % (pipe, i), kind='momentum',
                      specs=[s], pipe=pipe, cost=80))
   # rest: reuse C02-style scope (all root kinds)
-  rest = phys.n1_full(seed, axes_ids=(0, 2))[::4] + phys.n2_reduced(
+  rest = phys.n1_full(seed, axes_ids=(0, 1, 2))[::4] + phys.n2_reduced(
       seed, nvar=2)[::3 if tier == 'quick' else 1]
   n3 = phys.nk_skeletons(3, seed, assignments=1)
   rest += n3[::29] if tier == 'quick' else n3
@@ -154,9 +158,8 @@ def _init_states(spec, rng):
   return out
 
 
-def _momentum(sys, xd_i_vel):
-  m = np.asarray(sys.link.inertia.mass)
-  return np.einsum('l,blk->bk', m, xd_i_vel)
+def _momentum(mass, xd_i_vel):
+  return np.einsum('bl,blk->bk', mass, xd_i_vel)
 
 
 def run_momentum(spec, pipe, tier, seed, res):
@@ -183,12 +186,14 @@ def run_momentum(spec, pipe, tier, seed, res):
   BB = max(BB, 16)
   Qp, Dp = pipes.pad([Q, D], BB)
   st = f_init(s, Qp, Dp)
-  mass = np.asarray(sys.link.inertia.mass)
-  Mtot = mass.sum()
+  # the masses the pipeline integrates with (= link masses at the default
+  # spring_mass_scale 0)
+  mass = np.asarray(st.mass)
+  Mtot = mass[0].sum()
   g = np.asarray(sys.gravity)
   dt = float(sys.opt.timestep)
   alive = np.ones(B, bool)
-  p_prev = _momentum(sys, np.asarray(st.xd_i.vel))[:B]
+  p_prev = _momentum(mass, np.asarray(st.xd_i.vel))[:B]
   res['states'] += len(inits)
   diverged = 0
   for li in range(L):
@@ -199,7 +204,7 @@ def run_momentum(spec, pipe, tier, seed, res):
     for k in range(h):
       st = f_step(s, st, ctrl)
       v = np.asarray(st.xd_i.vel)
-      p = _momentum(sys, v)[:B]
+      p = _momentum(mass, v)[:B]
       fin = np.isfinite(v[:B]).all(axis=(1, 2))
       newly = alive & ~fin
       diverged += int(newly.sum())
@@ -242,13 +247,31 @@ def run_rest(spec, pipe, tier, seed, res):
   for l in s['links']:
     l['passive'] = [dict(p, stiffness=0.0) for p in l['passive']]
   s['option'] = dict(gravity=[0.0, 0.0, 0.0], timestep=0.002)
+  # limit letter per model: none / symmetric / positive range excluding 0
+  lim = int(scope.rng_for(seed, 'c04lim', str(phys.describe(spec))).randint(3))
+  lo, hi = -1.0, 1.0
+  if lim:
+    for l in s['links']:
+      l['range'] = [([-1.4, 1.3] if lim == 1 else [0.2, 0.9])
+                    for _ in l['range']]
+    if lim == 2:
+      lo, hi = 0.3, 0.8
   joints = [(i, j) for i, l in enumerate(s['links']) if l['kind'] != 'F'
             for j in range(len(l['kind']))]
   s['actuators'] = [dict(joint=list(joints[0]), kind='motor', gear=3.0)] \
       if joints else []
   sys, mj = scope.load(s)
   rng = scope.rng_for(seed, 'c04rest', str(scope.skeleton(s)))
-  qs, _ = scope.coord_grid(s, rng, hk=3, sk=2, cap=243, lo=-1.0, hi=1.0)
+  qs, _ = scope.coord_grid(s, rng, hk=3, sk=2, cap=243, lo=lo, hi=hi)
+  if lim == 2:
+    # coord_grid always contains 0: move those coordinates inside the range
+    off = 0
+    for l in s['links']:
+      w = 7 if l['kind'] == 'F' else len(l['kind'])
+      if l['kind'] != 'F':
+        blk = qs[:, off:off + w]
+        blk[blk == 0.0] = 0.55
+      off += w
   nq, nv = scope.nq_nv(s)
   nu = len(s['actuators'])
   f = pipes.jitted(pipe, 'init_step')
@@ -276,9 +299,7 @@ def run_rest(spec, pipe, tier, seed, res):
     if bad.any():
       b = int(np.argmax(bad))
       res['violations'].append(dict(
-          key='C04:rest:%s%s' % (pipe, '' if (pipe == 'generalized' or
-                                              phys.all_supported(s)) else
-                                 ':stack-mixing-hinge-and-slide-not-S*H'),
+          key='C04:rest:%s%s' % (pipe, _rest_class(s, pipe)),
           what='%s: system at rest moved: |dq|=%.3g |qd|=%.3g |xd|=%.3g '
           'kinds=%s q=%s' % (pipe, dq[b].max(), np.abs(d1[b]).max(), xv[b],
                              [l['kind'] for l in s['links']],
@@ -286,6 +307,20 @@ def run_rest(spec, pipe, tier, seed, res):
           case=dict(kind='rest', spec=spec, pipe=pipe, q=q[b].tolist())))
       return
   res['paths'] += len(qs)
+
+
+def _rest_class(s, pipe):
+  """Structural signature of the listed rest-case findings ('' = none)."""
+  if pipe == 'generalized':
+    return ''
+  if not phys.all_supported(s):
+    return ':stack-mixing-hinge-and-slide-not-S*H'
+  if pipe == 'positional':
+    for l in s['links']:
+      if l['kind'] == 'HHH' and any(r is not None for r in l['range']) and \
+          np.linalg.det(np.array(l['axes'])) < 0:
+        return ':limited-left-handed-three-hinge-stack'
+  return ''
 
 
 def run_task(task):
@@ -319,7 +354,7 @@ def replay(rec):
   p = pipes.module(c['pipe'])
   st = p.init(sys, jp.asarray(c['q']), jp.asarray(c['qd']))
   nu = len(spec.get('actuators', []))
-  mass = np.asarray(sys.link.inertia.mass)
+  mass = np.asarray(st.mass)
   g, dt = np.asarray(sys.gravity), float(sys.opt.timestep)
   lines = []
   ok = True
